@@ -181,6 +181,9 @@ impl Process {
         child.gid = parent.gid;
         child.egid = parent.egid;
         child.fds = parent.fds.clone();
+        child.umask = parent.umask;
+        child.cwd.clone_from(&parent.cwd);
+        child.resource_limits.clone_from(&parent.resource_limits);
         child.dispositions.clone_from(&parent.dispositions);
         child.blocked_signals.clone_from(&parent.blocked_signals);
         child
